@@ -73,4 +73,60 @@ def history (clears : Bool) : Owner → List (Nat × Option Nat) → List Ev
     let (o', evs) := resize clears o size ans
     evs ++ history clears o' rest
 
+/-! ### objects the caller still owns while a context only references them
+
+A thread pool attached with ZSTD_CCtx_refThreadPool, a CDict / DDict attached with ZSTD_CCtx_refCDict / ZSTD_DCtx_refDDict (also the
+members of the multi-DDict hash set), the buffer behind ZSTD_CCtx_refPrefix / loadDictionary_byReference: the library holds a
+reference, the caller keeps the object and hands it back itself.  The harness interleaves the caller's declarations with the
+allocator's events: `own a` = block `a` belongs to such an object, `disown a` = the caller starts releasing it.  A block handed back
+through the custom free while it is declared owned was released by somebody who only had a reference: `stolen`. -/
+
+inductive OEv where
+  | ev (e : Ev)
+  | own (addr : Nat)
+  | disown (addr : Nat)
+deriving Repr, DecidableEq
+
+structure OSt where
+  base : St := {}
+  owned : List Nat := []
+  /-- owned blocks handed back while the caller still owned them -/
+  stolen : List Nat := []
+deriving Repr, DecidableEq
+
+def stolenBy (owned : List Nat) : Ev → List Nat
+  | .free a => if a ∈ owned then [a] else []
+  | _ => []
+
+def ostep (s : OSt) : OEv → OSt
+  | .ev e => { s with base := step s.base e, stolen := stolenBy s.owned e ++ s.stolen }
+  | .own a => { s with owned := a :: s.owned }
+  | .disown a => { s with owned := s.owned.filter (fun x => x != a) }
+
+def orun (s : OSt) (evs : List OEv) : OSt := evs.foldl ostep s
+
+def OwnedIntact (s : OSt) : Prop := s.stolen = []
+
+instance (s : OSt) : Decidable (OwnedIntact s) := by unfold OwnedIntact; exact inferInstance
+
+/-- the allocator's own events of an annotated log -/
+def baseLog (evs : List OEv) : List Ev :=
+  evs.filterMap (fun e => match e with | .ev e => some e | _ => none)
+
+/-- whole life of a constructor that only REFERENCES caller-owned blocks `refs`: the caller creates and declares them, the
+constructor acquires `as`, meets a failed request, unwinds by handing back `bs`, the caller then releases its objects -/
+def refLifecycle (refs as : List (Nat × Nat)) (failed : Nat) (bs : List Nat) : List OEv :=
+  (refs.map (fun p => Ev.alloc p.1 p.2)).map OEv.ev ++ (refs.map (·.1)).map OEv.own
+  ++ (as.map (fun p => Ev.alloc p.1 p.2) ++ [Ev.fail failed] ++ bs.map Ev.free).map OEv.ev
+  ++ (refs.map (·.1)).map OEv.disown ++ ((refs.map (·.1)).map Ev.free).map OEv.ev
+
+/-- ZSTDMT_createCCtx_advanced_internal on a caller-provided thread pool followed, on failure, by ZSTDMT_freeCCtx.  `pool` = the blocks
+of the caller's pool, `parts` = what the constructor acquired itself before the failed request.  ZSTDMT_freeCCtx releases the factory
+unless `providedFactory` is set; `flagBeforeCheck` = the flag is recorded before the combined failure check (it is 0 from calloc
+until then). -/
+def mtCtorOnProvidedPool (flagBeforeCheck : Bool) (pool : List Nat) (parts : List (Nat × Nat)) (failed : Nat) : List OEv :=
+  (parts.map (fun p => Ev.alloc p.1 p.2) ++ [Ev.fail failed]
+    ++ (if flagBeforeCheck then [] else pool.map Ev.free)
+    ++ parts.map (fun p => Ev.free p.1)).map OEv.ev
+
 end ZstdVerif.Ledger
